@@ -1,4 +1,4 @@
-package core
+package c12
 
 import (
 	"bufio"
@@ -8,6 +8,7 @@ import (
 	"testing"
 
 	"github.com/redis/rueidis"
+	"verifh/drv"
 	"verifh/mon"
 	"verifh/resp"
 )
@@ -43,32 +44,32 @@ func TestC12(t *testing.T) {
 		}
 		run.Case(string(data), nontrivial)
 		if i < 3 {
-			run.Sample(map[string]any{"wire": hexs(data)})
+			run.Sample(map[string]any{"wire": drv.Hexs(data)})
 		}
 		for s := 0; s < 6; s++ {
-			sizes := splitPlan(rng, s)
+			sizes := drv.SplitPlan(rng, s)
 			bs := bufsizes[(i+s)%len(bufsizes)]
-			got, err := decodeAll(data, sizes, bs)
+			got, err := drv.DecodeAll(data, sizes, bs)
 			run.Observe("decodes", 1)
 			if err != nil {
-				run.Violation("decode-error", fmt.Sprintf("%s split=%v buf=%d", hexs(data), sizes, bs), map[string]any{"wire": hexs(data), "err": err.Error(), "split": sizes, "bufsize": bs})
+				run.Violation("decode-error", fmt.Sprintf("%s split=%v buf=%d", drv.Hexs(data), sizes, bs), map[string]any{"wire": drv.Hexs(data), "err": err.Error(), "split": sizes, "bufsize": bs})
 				break
 			}
 			bad := len(got) != len(vs)
 			for j := 0; !bad && j < len(vs); j++ {
-				if !nodeEqual(got[j], expectNode(vs[j])) {
+				if !drv.NodeEqual(got[j], drv.ExpectNode(vs[j])) {
 					bad = true
 				}
 			}
 			if bad {
 				var gs, es []string
 				for _, g := range got {
-					gs = append(gs, nodeString(g))
+					gs = append(gs, drv.NodeString(g))
 				}
 				for _, v := range vs {
-					es = append(es, nodeString(expectNode(v)))
+					es = append(es, drv.NodeString(drv.ExpectNode(v)))
 				}
-				run.Violation("decode-mismatch", fmt.Sprintf("%s split=%v buf=%d", hexs(data), sizes, bs), map[string]any{"wire": hexs(data), "got": gs, "want": es, "split": sizes, "bufsize": bs})
+				run.Violation("decode-mismatch", fmt.Sprintf("%s split=%v buf=%d", drv.Hexs(data), sizes, bs), map[string]any{"wire": drv.Hexs(data), "got": gs, "want": es, "split": sizes, "bufsize": bs})
 				break
 			}
 		}
@@ -88,19 +89,19 @@ func TestC12(t *testing.T) {
 			}
 			wire := resp.Encode(nil, v)
 			for s := 0; s < 3; s++ {
-				sizes := splitPlan(rng, s+i)
+				sizes := drv.SplitPlan(rng, s+i)
 				var w bytes.Buffer
-				r := bufio.NewReaderSize(&chunkReader{data: append(append([]byte{}, wire...), "+TAIL\r\n"...), sizes: sizes}, bufsizes[(i+s)%4])
+				r := bufio.NewReaderSize(&drv.ChunkReader{Data: append(append([]byte{}, wire...), "+TAIL\r\n"...), Sizes: sizes}, bufsizes[(i+s)%4])
 				nn, err, clean := rueidis.VerifStreamTo(r, &w)
 				run.Observe("streams", 1)
 				if err != nil || !clean || w.String() != want || nn != int64(len(want)) {
-					run.Violation("stream-mismatch", fmt.Sprintf("%s split=%v", hexs(wire), sizes), map[string]any{"wire": hexs(wire), "wrote": hexs(w.Bytes()), "want": hexs([]byte(want)), "n": nn, "err": fmt.Sprint(err), "clean": clean})
+					run.Violation("stream-mismatch", fmt.Sprintf("%s split=%v", drv.Hexs(wire), sizes), map[string]any{"wire": drv.Hexs(wire), "wrote": drv.Hexs(w.Bytes()), "want": drv.Hexs([]byte(want)), "n": nn, "err": fmt.Sprint(err), "clean": clean})
 					break
 				}
 				// the stream must be left positioned at the next reply
 				m, err := rueidis.VerifReadNextMessage(r)
 				if d := rueidis.VerifDump(m); err != nil || d.Str != "TAIL" {
-					run.Violation("stream-misframed", fmt.Sprintf("%s split=%v", hexs(wire), sizes), map[string]any{"wire": hexs(wire), "next": nodeString(d), "err": fmt.Sprint(err)})
+					run.Violation("stream-misframed", fmt.Sprintf("%s split=%v", drv.Hexs(wire), sizes), map[string]any{"wire": drv.Hexs(wire), "next": drv.NodeString(d), "err": fmt.Sprint(err)})
 					break
 				}
 			}
